@@ -21,11 +21,133 @@ from .src import own_nodes
 Classify = Callable[[Node], "tuple[str, bool] | None"]  # (variable, polarity): atom true <=> var == polarity
 
 
+def _tracked_locals(cfg: CFG) -> dict[str, set[str]]:
+    """Locals whose every assignment is a constant True/False/None or an object-creating call: their truthiness /
+    None-ness is tracked along the walk (flags and 'selected value' locals introduced by helpers and refactorings).
+    name -> set of abstract values it can take ('T', 'F', 'N' for None, 'O' for a non-None object)."""
+    fn = cfg.func.node
+    vals: dict[str, set[str]] = {}
+    bad: set[str] = set(cfg.func.param_names())
+    for n in own_nodes(fn):
+        tgts: list[ast.expr] = []
+        v = None
+        if isinstance(n, ast.Assign):
+            tgts, v = n.targets, n.value
+        elif isinstance(n, ast.AnnAssign) and n.value is not None:
+            tgts, v = [n.target], n.value
+        elif isinstance(n, (ast.AugAssign, ast.NamedExpr)):
+            if isinstance(n.target, ast.Name):
+                bad.add(n.target.id)
+            continue
+        elif isinstance(n, (ast.For, ast.AsyncFor, ast.With, ast.AsyncWith, ast.ExceptHandler)):
+            for x in ast.walk(getattr(n, "target", None) or ast.Pass()):
+                if isinstance(x, ast.Name):
+                    bad.add(x.id)
+            for it in getattr(n, "items", []) or []:
+                if it.optional_vars is not None:
+                    for x in ast.walk(it.optional_vars):
+                        if isinstance(x, ast.Name):
+                            bad.add(x.id)
+            if isinstance(n, ast.ExceptHandler) and n.name:
+                bad.add(n.name)
+            continue
+        for t in tgts:
+            if isinstance(t, ast.Name):
+                a = _abstract(v)
+                if a is None:
+                    bad.add(t.id)
+                else:
+                    vals.setdefault(t.id, set()).add(a)
+            elif isinstance(t, (ast.Tuple, ast.List)):
+                for x in ast.walk(t):
+                    if isinstance(x, ast.Name):
+                        bad.add(x.id)
+    return {k: v for k, v in vals.items() if k not in bad}
+
+
+def _abstract(v: ast.expr | None) -> "str | None":
+    if isinstance(v, ast.Constant):
+        if v.value is True:
+            return "T"
+        if v.value is False:
+            return "F"
+        if v.value is None:
+            return "N"
+        return None
+    if isinstance(v, ast.Call) and isinstance(v.func, (ast.Name, ast.Attribute)):
+        nm = v.func.id if isinstance(v.func, ast.Name) else v.func.attr
+        if nm[:1].isupper():  # a constructor: never None, truthy
+            return "O"
+    return None
+
+
+def _local_test(t: ast.AST, env: dict[str, str]) -> "bool | None":
+    """Value of a test on a tracked local under the abstract environment."""
+    if isinstance(t, ast.Name) and t.id in env:
+        return env[t.id] in ("T", "O")
+    if isinstance(t, ast.Compare) and len(t.ops) == 1 and isinstance(t.left, ast.Name) and t.left.id in env and isinstance(t.comparators[0], ast.Constant) and t.comparators[0].value is None:
+        isnone = env[t.left.id] == "N"
+        if isinstance(t.ops[0], (ast.Is, ast.Eq)):
+            return isnone
+        if isinstance(t.ops[0], (ast.IsNot, ast.NotEq)):
+            return not isnone
+    return None
+
+
 def walk(cfg: CFG, assignment: dict[str, bool], classify: Classify, start: Node | None = None, blocked: set[Node] | None = None, follow_exc: bool = False) -> set[Node]:
     start = start or cfg.entry
+    blocked = blocked or set()
+    tracked = _tracked_locals(cfg)
+    if not tracked:
+        return _walk_plain(cfg, assignment, classify, start, blocked, follow_exc)
+    # path-sensitive in the tracked locals: state = (node, frozenset of (local, abstract value))
+    init = (start, frozenset())
+    seen = {init}
+    todo = [init]
+    out = {start}
+    while todo:
+        n, envf = todo.pop()
+        if n in blocked and n is not start:
+            continue
+        env = dict(envf)
+        a = n.ast
+        if n.kind == "stmt" and isinstance(a, (ast.Assign, ast.AnnAssign)):
+            tg = a.targets if isinstance(a, ast.Assign) else [a.target]
+            for t in tg:
+                if isinstance(t, ast.Name) and t.id in tracked:
+                    av = _abstract(a.value)
+                    if av is not None:
+                        env[t.id] = av
+                    else:
+                        env.pop(t.id, None)
+        cl = classify(n) if n.kind == "cond" else None
+        known: bool | None = None
+        if cl is not None and cl[0] in assignment:
+            known = assignment[cl[0]] == cl[1]
+        elif cl is None and n.kind == "cond":
+            known = _local_test(a, env)
+            if known is None and isinstance(a, ast.Name):
+                known = _eval_local(cfg, a.id, assignment, classify)
+        envf2 = frozenset(env.items())
+        for label, s in n.succ:
+            if label == "exc" and not follow_exc:
+                continue
+            if known is not None and label in ("true", "false"):
+                if (label == "true") != known:
+                    continue
+            st = (s, envf2 if label != "exc" else envf)
+            if st not in seen:
+                if len(seen) > 20000:
+                    return _walk_plain(cfg, assignment, classify, start, blocked, follow_exc) | out
+                seen.add(st)
+                out.add(s)
+                todo.append(st)
+    return out
+
+
+def _walk_plain(cfg: CFG, assignment: dict[str, bool], classify: Classify, start: Node, blocked: set[Node], follow_exc: bool) -> set[Node]:
     seen = {start}
     todo = [start]
-    blocked = blocked or set()
     while todo:
         n = todo.pop()
         if n in blocked and n is not start:
